@@ -18,6 +18,10 @@ import (
 	"github.com/NVIDIA/KAI-scheduler/pkg/scheduler/scheduler_util"
 )
 
+// shareComparisonTolerance absorbs floating point noise when amounts of resources are compared (1e-9 of a GPU, a
+// millicore or a byte is far below anything that can be requested).
+const shareComparisonTolerance = 1e-9
+
 type remainingRequestedResource struct {
 	queue           *rs.QueueAttributes
 	remainingAmount float64
@@ -283,18 +287,22 @@ func divideRemainingResource(totalResourceAmount float64, remainingRequested map
 func getResourceToGiveInCurrentRound(fairShare float64, requested float64, queue *rs.QueueAttributes,
 	remainingRequested map[common_info.QueueID]*remainingRequestedResource) float64 {
 	resourcesToGive := float64(0)
-	if requested <= fairShare {
+	// The amounts compared here are sums and differences of floating point numbers accumulated in map iteration
+	// order (requests over pods, the remainder over queues), so their last bits depend on the enumeration order.
+	// Without a tolerance a request of 0.6 against a remainder of 0.5999999999999999 falls off the cliff below and a
+	// whole share moves to another queue depending on that order.
+	if requested <= fairShare+shareComparisonTolerance {
 		resourcesToGive = requested
 		log.InfraLogger.V(7).Infof("%v received %v resources and is satisfied", queue.Name, resourcesToGive)
 		delete(remainingRequested, queue.UID)
 	} else {
 		// for better usability, when we limit the fairShare that a project/departments receives, it is always done in round numbers
-		roundFairShare := math.Floor(fairShare)
+		roundFairShare := math.Floor(fairShare + shareComparisonTolerance)
 		if roundFairShare > 0 {
 			resourcesToGive = roundFairShare
 			log.InfraLogger.V(7).Infof("%v received its' fairShare of %v resources in current round, but still not satisfied", queue.Name, resourcesToGive)
 		}
-		if fairShare-resourcesToGive > 0 {
+		if fairShare-resourcesToGive > shareComparisonTolerance {
 			remainingRequested[queue.UID] = &remainingRequestedResource{
 				queue:           queue,
 				remainingAmount: fairShare - resourcesToGive,
@@ -338,11 +346,11 @@ func remainingRequestedOrderFn() func(lQ, rQ interface{}) bool {
 		rRemaining := rH.(*remainingRequestedResource)
 		lRemainingAmount := lRemaining.remainingAmount
 		rRemainingAmount := rRemaining.remainingAmount
-		if lRemainingAmount > rRemainingAmount {
+		if lRemainingAmount > rRemainingAmount+shareComparisonTolerance {
 			return true // means lQueue will be popped before rQueue
 		}
 
-		if lRemainingAmount < rRemainingAmount {
+		if lRemainingAmount < rRemainingAmount-shareComparisonTolerance {
 			return false
 		}
 
